@@ -55,14 +55,8 @@ ReturnEv == LET e == Log[l] IN
                   /\ e.pop_after = pop
   /\ UNCHANGED words
 
-(* a serial step on a population that says it has the largest possible number of members, whose    *)
-(* FIRST child fails: the error of call 1 is returned (at once: nothing is made for the others)    *)
-EndlessEv == LET e == Log[l] IN
-  /\ e.ev = "endless" /\ e.says_max /\ e.result = "error" /\ e.err_call = 1
-  /\ UNCHANGED <<vars, words>>
-
 TraceNext == /\ l <= Len(Log) /\ l' = l + 1
-             /\ (Reset \/ BeginEv \/ StartEv \/ EndEv \/ ReturnEv \/ EndlessEv)
+             /\ (Reset \/ BeginEv \/ StartEv \/ EndEv \/ ReturnEv)
 TraceSpec == TraceInit /\ [][TraceNext]_tvars
 
 TraceAccepted ==
